@@ -248,7 +248,7 @@ class HamiltonianChain(MarkovChain):
         :return: \
             Samples for the parameter specified by ``index`` as a ``numpy.ndarray``.
         """
-        return array([v[index] for v in self.theta[burn::thin]]).squeeze()
+        return array([v[index] for v in self.theta[burn::thin]])
 
     def plot_diagnostics(self, show=True, filename=None, burn=None):
         """
@@ -399,7 +399,7 @@ class HamiltonianChain(MarkovChain):
         :return: \
             The sample as a ``numpy.ndarray`` of shape ``(n_samples, n_parameters)``.
         """
-        return array(self.theta[burn::thin])
+        return array(self.theta[burn::thin]).reshape(-1, self.n_parameters)
 
     def mode(self) -> ndarray:
         return array(self.theta[argmax(self.probs)]).squeeze()
